@@ -30,11 +30,15 @@ package main
 //@   pureparam filterNode
 //@   ensures result == Healthy(eps, filterNode)
 //@   modifies fresh map[string]bool
+//@   loop 1 binds slice
 //@   loop 1 invariant ready != nil && ReadyInv(eps, filterNode, ready, iter, 0, 0)
+//@   loop 2 binds ep
 //@   loop 2 invariant ready != nil && 0 <= idx(1) && idx(1) < len(eps) && ReadyInv(eps, filterNode, ready, idx(1), iter, 0)
+//@   loop 3 binds addr
 //@   loop 3 invariant ready != nil && 0 <= idx(1) && idx(1) < len(eps) && 0 <= idx(2) && idx(2) < len(eps[idx(1)].Endpoints)
 //@   loop 3 invariant !filterNode(eps[idx(1)].Endpoints[idx(2)].NodeName)
 //@   loop 3 invariant ReadyInv(eps, filterNode, ready, idx(1), idx(2), iter)
+//@   loop 4 binds r
 //@   loop 4 invariant ReadyInv(eps, filterNode, ready, len(eps), 0, 0)
 //@   loop 4 invariant forall x string :: x in visited ==> x in ready && !ready[x]
 
@@ -49,6 +53,7 @@ package main
 //@   requires PoolWF(pool)
 //@   ensures result == SelectsBGP(pool, node)
 //@   modifies nothing
+//@   loop 1 binds adv
 //@   loop 1 invariant forall j int :: 0 <= j && j < iter ==> !pool.BGPAdvertisements[j].Nodes[node]
 
 // nodeFilter(local, me): the spec-level node filter. It drops an endpoint entry exactly when the
@@ -103,6 +108,7 @@ package main
 //@   requires PoolWF(pool)
 //@   ensures result == SelectsL2(pool, node)
 //@   modifies nothing
+//@   loop 1 binds adv
 //@   loop 1 invariant forall j int :: 0 <= j && j < iter ==> !pool.L2Advertisements[j].Nodes[node]
 
 // Active: the Service has at least one ready or serving endpoint entry.
@@ -112,7 +118,9 @@ package main
 //@ func activeEndpointExists
 //@   ensures result == Active(eps)
 //@   modifies nothing
+//@   loop 1 binds slice
 //@   loop 1 invariant forall i int, j int :: 0 <= i && i < iter && 0 <= j && j < len(eps[i].Endpoints) ==> !epslices.Serv(eps[i].Endpoints[j].Conditions)
+//@   loop 2 binds ep
 //@   loop 2 invariant 0 <= idx(1) && idx(1) < len(eps)
 //@   loop 2 invariant forall i int, j int :: 0 <= i && i < idx(1) && 0 <= j && j < len(eps[i].Endpoints) ==> !epslices.Serv(eps[i].Endpoints[j].Conditions)
 //@   loop 2 invariant forall j int :: 0 <= j && j < iter ==> !epslices.Serv(eps[idx(1)].Endpoints[j].Conditions)
@@ -144,6 +152,7 @@ package main
 //@   ensures forall n string :: (n in result) == old(Eligible(c, pool, nodes, n))
 //@   ensures forall n string :: n in result ==> result[n]
 //@   modifies fresh map[string]bool, fresh []interface{}, fresh *int
+//@   loop 1 binds s
 //@   loop 1 invariant res != nil && fresh(res) && jump$1 == 0 && c == old(c) && pool == old(pool) && nodes == old(nodes)
 //@   loop 1 invariant forall n string :: (n in res) == (n in visited && old(NodeOK(c, pool, nodes, n)))
 //@   loop 1 invariant forall n string :: n in res ==> res[n]
@@ -155,6 +164,7 @@ package main
 //@   ensures NoDup(result)
 //@   ensures result == nil || fresh(result)
 //@   modifies fresh []string
+//@   loop 1 binds node
 //@   loop 1 invariant forall n string :: (n in ret) == (n in visited)
 //@   loop 1 invariant NoDup(ret) && (ret == nil || fresh(ret))
 //@   loop 1 invariant forall n string :: n in visited ==> n in speakers
@@ -174,12 +184,15 @@ package main
 //@   ensures NoDup(result)
 //@   ensures result == nil || fresh(result)
 //@   modifies fresh []string, fresh map[string]bool
+//@   loop 1 binds slice
 //@   loop 1 invariant usable != nil && fresh(usable)
 //@   loop 1 invariant let a := iter in forall n string :: (n in usable) == old(speakers[n] && HostsReadyUpTo(eps, n, a, 0))
 //@   loop 1 invariant forall n string :: n in usable ==> usable[n]
+//@   loop 2 binds ep
 //@   loop 2 invariant usable != nil && fresh(usable) && 0 <= idx(1) && idx(1) < len(eps)
 //@   loop 2 invariant let a := idx(1) in let b := iter in forall n string :: (n in usable) == old(speakers[n] && HostsReadyUpTo(eps, n, a, b))
 //@   loop 2 invariant forall n string :: n in usable ==> usable[n]
+//@   loop 3 binds ok
 //@   loop 3 invariant forall n string :: (n in ret) == (n in visited)
 //@   loop 3 invariant NoDup(ret) && (ret == nil || fresh(ret))
 //@   loop 3 invariant forall n string :: n in visited ==> n in usable
@@ -304,6 +317,7 @@ package main
 //@   assert after append#1: [grown] forall x *bgp.Advertisement :: (x in ret) == ((x in res) || x == a)
 //@   assert after append#1: [adsSame] forall x *bgp.Advertisement :: (x in ads) == pre(x in ads)
 //@   assert after append#1: [keeps] forall x *bgp.Advertisement :: (x in ret) ==> (x in ads) && bgp.ForPeer(x, peerName)
+//@   loop 1 binds a
 //@   loop 1 invariant res != nil && fresh(res)
 //@   loop 1 invariant forall x *bgp.Advertisement :: (x in res) ==> (x in ads) && bgp.ForPeer(x, peerName)
 //@   loop 1 invariant forall k int :: 0 <= k && k < iter && bgp.ForPeer(ads[k], peerName) ==> (ads[k] in res)
@@ -336,7 +350,25 @@ package main
 //@   requires ad != nil && 0 <= i && i < len(ad.Communities) && 0 <= j && j < len(ad.Communities)
 //@   ensures result == community.CommLess(ad.Communities[i], ad.Communities[j])
 
-// what the rest of the controller does with the advertisements (publishing to the sessions): see publishAds
+// publishAds: every session is handed exactly the advertisements, over all Services, that are meant for its peer.
+// InSvcAds: x is one of the advertisements recorded for some Service.
+//@ pred InSvcAds(c *bgpController, x *bgp.Advertisement) := exists s string, k int :: (s in c.svcAds) && 0 <= k && k < len(c.svcAds[s]) && c.svcAds[s][k] == x
+//@ func (*bgpController).publishAds
+//@   requires c != nil && c.svcAds != nil
+//@   requires [adsOk] forall s string, k int :: (s in c.svcAds) && 0 <= k && k < len(c.svcAds[s]) ==> c.svcAds[s][k] != nil
+//@   requires [peersOk] forall k int :: 0 <= k && k < len(c.peers) ==> c.peers[k] != nil && c.peers[k].cfg != nil
+//@   modifies fresh []*bgp.Advertisement, fresh map[string][]*bgp.Advertisement
+//@   assert before Set#1: [offeredSound] forall x *bgp.Advertisement :: (x in ads) ==> InSvcAds(c, x) && bgp.ForPeer(x, peer.cfg.Name)
+//@   assert before Set#1: [offeredComplete] forall s string, k int :: (s in c.svcAds) && 0 <= k && k < len(c.svcAds[s]) && bgp.ForPeer(c.svcAds[s][k], peer.cfg.Name) ==> (c.svcAds[s][k] in ads)
+//@   assert before Set#1: [handedOver] sameSlice(arg0, ads)
+//@   loop 1 binds ads
+//@   loop 1 invariant allAds == nil || fresh(allAds)
+//@   loop 1 invariant forall j int :: 0 <= j && j < len(allAds) ==> allAds[j] != nil
+//@   loop 1 invariant [all] forall s string, k int :: (s in visited) && 0 <= k && k < len(c.svcAds[s]) ==> (c.svcAds[s][k] in allAds)
+//@   loop 1 invariant [only] forall x *bgp.Advertisement :: (x in allAds) ==> InSvcAds(c, x)
+//@   loop 2 binds peer
+//@   loop 2 invariant adsSet != nil && fresh(adsSet)
+// what the rest of the controller does with the advertisements
 //@ func (*bgpController).updateAds
 //@   trusted
 //@   requires c != nil
@@ -352,8 +384,11 @@ package main
 //@   call sort.Slice with less(a, b) := community.CommLess(a, b)
 //@   assert before updateAds: [others] forall s string :: s != name ==> (s in c.svcAds) == old(s in c.svcAds) && sameSlice(c.svcAds[s], old(c.svcAds[s]))
 //@   assert before len#1: [reset] len(c.svcAds[name]) == 0
+//@   loop 1 binds lbIP
 //@   loop 1 invariant BGPPoolOK(pool) && ValidIPs(lbIPs) && (c.svcAds[name] == nil || fresh(c.svcAds[name]))
+//@   loop 2 binds adCfg
 //@   loop 2 invariant BGPPoolOK(pool) && ValidIPs(lbIPs) && (c.svcAds[name] == nil || fresh(c.svcAds[name]))
+//@   loop 3 binds comm
 //@   loop 3 invariant BGPPoolOK(pool) && ValidIPs(lbIPs) && (c.svcAds[name] == nil || fresh(c.svcAds[name])) && (ad.Communities == nil || fresh(ad.Communities))
 //@   loop 3 invariant 0 <= idx(1) && idx(1) < len(lbIPs) && 0 <= idx(2) && idx(2) < len(pool.BGPAdvertisements) && adCfg == pool.BGPAdvertisements[idx(2)] && Sel(c, adCfg)
 //@   loop 3 invariant ad.Prefix != nil && net.maskOnes(ad.Prefix.Mask) == ite(net.is4(lbIP), adCfg.AggregationLength, adCfg.AggregationLengthV6) && net.maskBits(ad.Prefix.Mask) == ite(net.is4(lbIP), 32, 128)
@@ -420,9 +455,11 @@ package main
 //@   assert before len#1: [otherFlags] forall p config.Proto, s string :: (p != protocol || s != name) ==> c.announced[p][s] == old(c.announced[p][s])
 //@   assert before len#1: [otherAny] forall s string :: s != name ==> AnyProto(c, s) == old(AnyProto(c, s))
 //@   assert before len#1: [ipsInv] forall s string :: (s in c.svcIPs) == AnyProto(c, s)
+//@   loop 1 binds ip
 //@   loop 1 invariant CtlInv(c) && c.announced[protocol][name] && (forall p config.Proto, s string :: (p != protocol || s != name) ==> c.announced[p][s] == old(c.announced[p][s]))
 //@   loop 1 invariant forall s string :: s != name ==> (s in c.svcIPs) == old(s in c.svcIPs) && sameSlice(c.svcIPs[s], old(c.svcIPs[s]))
 //@   loop 1 invariant CtlInv(c) && c.announced[protocol][name]
+//@   loop 2 binds p
 //@   loop 2 invariant CtlCore(c) && (forall s string :: s != name ==> (s in c.svcIPs) == AnyProto(c, s)) && !c.announced[protocol][name] && (forall k int :: 0 <= k && k < iter ==> !c.announced[c.protocols[k]][name])
 //@   loop 2 invariant (name in c.svcIPs) == old(name in c.svcIPs) && sameSlice(c.svcIPs[name], old(c.svcIPs[name])) && old(name in c.svcIPs)
 //@   loop 2 invariant forall p config.Proto, s string :: (p != protocol || s != name) ==> c.announced[p][s] == old(c.announced[p][s])
@@ -435,6 +472,7 @@ package main
 //@   ensures [others] forall p config.Proto, s string :: s != name ==> c.announced[p][s] == old(c.announced[p][s])
 //@   ensures [ips] forall s string :: s != name ==> (s in c.svcIPs) == old(s in c.svcIPs) && sameSlice(c.svcIPs[s], old(c.svcIPs[s]))
 //@   modifies map[string]bool, map(c.svcIPs), fresh map[string]string, fresh []interface{}
+//@   loop 1 binds protocol
 //@   loop 1 invariant CtlInv(c) && (forall k int :: 0 <= k && k < iter ==> !c.announced[c.protocols[k]][name])
 //@   loop 1 invariant forall p config.Proto, s string :: s != name ==> c.announced[p][s] == old(c.announced[p][s])
 //@   loop 1 invariant forall s string :: s != name ==> (s in c.svcIPs) == old(s in c.svcIPs) && sameSlice(c.svcIPs[s], old(c.svcIPs[s]))
@@ -456,7 +494,9 @@ package main
 //@ func compareIPs
 //@   ensures result == IPsMatch(ips1, ips2)
 //@   modifies nothing
+//@   loop 1 binds ip1
 //@   loop 1 invariant len(ips1) == len(ips2) && (forall i int :: 0 <= i && i < iter ==> (exists j int :: 0 <= j && j < len(ips2) && ips1[i].Equal(ips2[j])))
+//@   loop 2 binds ip2
 //@   loop 2 invariant 0 <= idx(1) && idx(1) < len(ips1) && ip1 == ips1[idx(1)] && (found ==> (exists j int :: 0 <= j && j < len(ips2) && ip1.Equal(ips2[j]))) && (!found ==> (forall j int :: 0 <= j && j < iter ==> !ip1.Equal(ips2[j])))
 
 // the speaker's own pool lookup (the pool containing all addresses, "" if none): only its frame is needed here
@@ -481,6 +521,8 @@ package main
 //@   assert after handleService: [selfMatch] IPsMatch(lbIPs, lbIPs)
 //@   assert after handleService: [stillMatch] (name in c.svcIPs) ==> IPsMatch(lbIPs, c.svcIPs[name])
 //@   assert before handleService: [withdrawnFirst] (name in c.svcIPs) ==> IPsMatch(lbIPs, c.svcIPs[name])
+//@   loop 1 binds i
 //@   loop 1 invariant CtlInv(c) && (lbIPs == nil || fresh(lbIPs)) && (forall p config.Proto, s string :: c.announced[p][s] == old(c.announced[p][s])) && (forall s string :: (s in c.svcIPs) == old(s in c.svcIPs) && sameSlice(c.svcIPs[s], old(c.svcIPs[s])))
+//@   loop 2 binds protocol
 //@   loop 2 invariant CtlInv(c) && (forall p config.Proto, s string :: s != name ==> c.announced[p][s] == old(c.announced[p][s])) && (forall s string :: s != name ==> (s in c.svcIPs) == old(s in c.svcIPs) && sameSlice(c.svcIPs[s], old(c.svcIPs[s])))
 //@   loop 2 invariant (name in c.svcIPs) ==> IPsMatch(lbIPs, c.svcIPs[name])
